@@ -3,16 +3,16 @@ import PkgProofs.Lemmas.SpecSet
 # C06 — pre-release gating and `filter()` follow the PEP 440 policy
 
 Model: `S.Spec.prereleases / contains / filter` (`PkgModel/Specifier.lean`) and
-`SS.SpecSet.prereleases / contains / filter` (`PkgModel/SpecifierSet.lean`); items passed to `filter` are
+`SSet.SpecSet.prereleases / contains / filter` (`PkgModel/SpecifierSet.lean`); items passed to `filter` are
 `(tag, version)` pairs, the tag standing for the identity of the object passed in, so "the very objects, in
-input order" is literal.  The mutable `.prereleases` attribute is the state machine `SS.Ev / runHist`.
+input order" is literal.  The mutable `.prereleases` attribute is the state machine `SSet.Ev / runHist`.
 Every set theorem holds **for every iteration order** `it` of the frozenset.
 
 `CmpOk m v` ("comparing member `m` with `v` does not raise") is the only recurring hypothesis; `.prereleases`
-itself is total since C03-fix-3 (`SS.preOk`).
+itself is total since C03-fix-3 (`SSet.preOk`).
 -/
 namespace C06
-open Py V S SS
+open Py V S SSet
 
 /-- is the answer `True` (and not `False` or an exception) -/
 def isOkTrue : R Bool → Bool
